@@ -384,3 +384,264 @@ _reg("C13", _e, _r, "exploration",
      "(plain, with args, layer=, generator and plain fixtures, failing setup), some raising; every probe compared with a "
      "dict-stack model, every cleanup with the LIFO exactly-once model; " + NONTRIVIAL,
      {"quick": 2200, "thorough": 40000})
+
+
+# ---------------------------------------------------------------------------
+# artefact properties C14..C18
+# ---------------------------------------------------------------------------
+from . import artifacts as A     # noqa: E402
+
+
+def make_runsim_post(prop, oracle_fns, profile, post, extra_probe=None):
+    def eval_world(world, root, stats):
+        hist = R.run_world(world, root, post=post)
+        pred = M.Acceptor(world, hist).run()
+        if stats is not None:
+            stats.note_run(world, hist)
+            _record_sample(stats, world, hist)
+            if extra_probe:
+                extra_probe(world, hist, pred, stats)
+        vs = []
+        for fn in oracle_fns:
+            vs.extend(fn(world, hist, pred))
+        esc = O.escaped_violation(hist)
+        if esc is not None:
+            if esc["prop"] == prop:
+                vs.append(esc)
+            elif esc["prop"] == "HARNESS":
+                raise RuntimeError("exception escaped outside behave: %r" % (esc,))
+            elif stats is not None:
+                stats.probe("escaped-owned-by-" + esc["prop"])
+        return [(world, v, None) for v in vs if v["prop"] == prop], R.history_digest(hist)
+
+    def evaluate(seed, hashseed, root, stats):
+        world = W.gen_world(seed, profile=profile)
+        world["hashseed"] = hashseed
+        return eval_world(world, root, stats)
+
+    def reproduce(world, root, ctx):
+        vs, _d = eval_world(world, root, None)
+        return [v for (_w, v, _c) in vs]
+    return evaluate, reproduce
+
+
+def prof_C14(d, rng):
+    prof_C03(d, rng)
+    d["p_summary_format"] = 0.6
+    d["junit"] = rng.random() < 0.1
+
+
+def prof_C15(d, rng):
+    prof_C03(d, rng)
+    d["rec"] = True
+    d["junit"] = False
+    d["autoretry"] = False
+    d["continue_after_failed"] = False
+    d["opts"] = {"p_background": rng.choice([0.3, 0.6, 0.9]), "p_rule": rng.choice([0.0, 0.3, 0.5]),
+                 "p_doc": 0.2, "p_table": 0.2}
+    d["fmt_bias"] = ["json", "json.pretty", "plain", "pretty", "progress", "progress2", "progress3"]
+
+
+def prof_C16(d, rng):
+    prof_C03(d, rng)
+    d["junit"] = True
+    d["hostile"] = rng.random() < 0.7
+    d["prints"] = True
+    d["cleanups"] = rng.random() < 0.4
+    d["p_cleanup_fail"] = rng.choice([0.0, 0.2])
+    d["autoretry"] = False
+
+
+def prof_C17(d, rng):
+    prof_C03(d, rng)
+    d["rerun"] = True
+    d["dry_run"] = False
+    d["autoretry"] = False
+    d["locsel"] = False
+    d["junit"] = False
+    d["size"] = rng.choice(["small", "medium", "medium"])
+    d["allow_wip_tag"] = True
+
+
+def prof_C18(d, rng):
+    prof_C02(d, rng)
+    d["prints"] = True
+    d["junit"] = rng.random() < 0.1
+    d["dry_run"] = False
+    d["autoretry"] = False
+    d["hostile"] = False
+    if rng.random() < 0.6 and not d["hooks"]:
+        d["hooks"] = [h for h in W.HOOK_NAMES if rng.random() < 0.6]
+    d["p_hook_fail"] = rng.choice([0.0, 0.05, 0.1])
+    d["nested"] = rng.random() < 0.3
+
+
+def c14_probe(world, hist, pred, stats):
+    fmt = world["cfg"]["userdata"].get("behave.reporter.summary.output_format", "default(v1)")
+    stats.probe("summary-format:" + fmt)
+    for kind, cnt in A.census_counts(hist).items():
+        for st in cnt:
+            stats.cells["%s:%s" % (kind, st)] = stats.cells.get("%s:%s" % (kind, st), 0) + cnt[st]
+
+
+def c15_probe(world, hist, pred, stats):
+    for name, outp in world["cfg"]["formatters"]:
+        stats.probe("formatter:" + name + ("" if outp else "(stdout)"))
+    if any(f.get("has_background") for f in hist["census"]):
+        stats.probe("feature-background")
+    for f in world["features"]:
+        for it in f["items"]:
+            if it["kind"] == "rule" and it.get("background"):
+                stats.probe("rule-background")
+
+
+def c16_probe(world, hist, pred, stats):
+    n = sum(1 for k in hist["artifacts"] if k.startswith("reports/"))
+    stats.probe("xml-files", n)
+    if world["dims"].get("hostile"):
+        stats.probe("hostile-world")
+    for sid, rec in pred.scen.items():
+        if rec.get("cleanup_failed"):
+            stats.probe("scenario-cleanup-error")
+        if rec.get("hook_failed"):
+            stats.probe("scenario-hook-error")
+
+
+def c18_probe(world, hist, pred, stats):
+    cap = world["cfg"]["capture"]
+    stats.probe("capture:%d%d%d" % (cap["stdout"], cap["stderr"], cap["log"]))
+    stats.probe("markers", len(hist["markers"]))
+    if any(e.get("raised") == "KeyboardInterrupt" for e in hist["events"]):
+        stats.probe("interrupt-in-step")
+    if any(e["kind"] == "hook" and e["name"].endswith("_step") and e.get("raised") for e in hist["events"]):
+        stats.probe("step-hook-error")
+
+
+_e, _r = make_runsim_post("C14", [A.check_C14], prof_C14, A.post_C14, c14_probe)
+_reg("C14", _e, _r, "exploration",
+     "runs of C01-C03 (untested remainders, hook errors, dry-run, rules, outline rows, background copies); the text "
+     "printed by SummaryReporter.end() is parsed (all 5 formats) and compared with a census of the real model, likewise "
+     "SummaryCollector and all format functions applied to the reporter's final tables; " + NONTRIVIAL,
+     {"quick": 2200, "thorough": 40000})
+
+_e, _r = make_runsim_post("C15", [A.check_C15], prof_C15, A.post_C15, c15_probe)
+_reg("C15", _e, _r, "exploration",
+     "two recording formatters (first and last position) around random subsets of the built-in formatters; event "
+     "grammar, agreement, results vs the model's processed steps; JSON re-read with json.loads and compared with the "
+     "census (each status on its own element) and read back with behave.json_parser; plain output re-parsed; " + NONTRIVIAL,
+     {"quick": 2200, "thorough": 40000})
+
+_e, _r = make_runsim_post("C16", [A.check_C16], prof_C16, None, c16_probe)
+_reg("C16", _e, _r, "exploration",
+     "--junit worlds with hostile characters in names, messages and captured output; every TESTS-*.xml parsed with "
+     "expat; test cases vs census, counters vs entries, failure/error entry naming the step or hook; " + NONTRIVIAL,
+     {"quick": 2200, "thorough": 40000})
+
+_e, _r = make_runsim_post("C18", [A.check_C18], prof_C18, None, c18_probe)
+_reg("C18", _e, _r, "exploration",
+     "steps and step hooks print unique markers to stdout/stderr/logging under all 8 capture switch combinations, "
+     "all outcome classes incl. interrupt and step-hook errors, nested execute_steps, several scenarios in sequence; "
+     "simulator-owned TTY objects record every chunk with the active callback; probes of sys.stdout/sys.stderr identity "
+     "and root logger state at every callback; " + NONTRIVIAL,
+     {"quick": 2200, "thorough": 40000})
+
+
+# --- C17: two-run history ---------------------------------------------------
+def c17_eval_world(world, root, stats):
+    out = []
+    hist = R.run_world(world, root)
+    pred = M.Acceptor(world, hist).run()
+    if stats is not None:
+        stats.note_run(world, hist)
+        _record_sample(stats, world, hist)
+    for v in A.check_C17_file(world, hist, pred):
+        out.append((world, v, None))
+    esc = O.escaped_violation(hist)
+    if esc is not None and esc["prop"] == "C17":
+        out.append((world, esc, None))
+    dig = R.history_digest(hist)
+    # second run: feed the rerun file back, all faults removed
+    for name, outp in world["cfg"]["formatters"]:
+        if name != "rerun" or not outp:
+            continue
+        text = hist["artifacts"].get(outp)
+        if text is None or hist.get("escaped") or hist.get("config_error"):
+            if stats is not None:
+                stats.probe("run1-without-rerun-file")
+            continue
+        locs = A.rerun_locations(text)
+        if not locs:
+            continue
+        w2 = copy.deepcopy(world)
+        w2["script"] = {}
+        w2["autoretry"] = {}
+        c2 = w2["cfg"]
+        c2.update({"tagexpr": None, "tag_args": [], "tags_protocol": None, "names": [], "stop": False,
+                   "dry_run": False, "wip": False, "junit": False, "listfile": None})
+        c2["formatters"] = [["plain", "out/plain_second.txt"]]
+        c2["paths"] = locs
+        c2["paths_raw"] = ["@" + outp]
+        w2["extra_files"] = {outp: text}
+        w2["stale_rerun"] = False
+        h2 = R.run_world(w2, root)
+        p2 = M.Acceptor(w2, h2).run()
+        if stats is not None:
+            stats.note_run(w2, h2)
+            stats.probe("second-runs")
+            stats.probe("locations-fed-back", len(locs))
+        dig += R.history_digest(h2)
+        if h2.get("escaped") or h2.get("config_error"):
+            esc2 = O.escaped_violation(h2)
+            out.append((world, O.V("C17", "second-run-selection",
+                                   "second-run-crashed:%s" % ((h2.get("escaped") or {}).get("type") or "config"),
+                                   error=h2.get("config_error") or h2.get("escaped")), None))
+            continue
+        vs2 = O.check_C10(w2, h2, p2) + O.check_C09(w2, h2, p2)
+        for v in vs2:
+            out.append((world, O.V("C17", "second-run-selection", "%s:%s" % (v["rule"], v["key"]), **v["detail"]), None))
+        # executed set == listed set
+        executed = set(e["scen"] for e in h2["events"] if e["depth"] == 0 and e["kind"] in ("step", "hook") and e.get("scen"))
+        idx2 = O.census_index(h2)
+        listed = set()
+        for sid, node in idx2.items():
+            if node["kind"] == "scenario":
+                fn = None
+                for f in h2["census"]:
+                    if sid.startswith(f["id"] + "."):
+                        fn = f["filename"]
+                if "%s:%d" % (fn, node["line"]) in locs:
+                    listed.add(sid)
+        extra = sorted(executed - listed)
+        if extra:
+            out.append((world, O.V("C17", "second-run-selection", "executed-not-listed", scenarios=extra[:5]), None))
+        for sid in sorted(listed):
+            node = idx2[sid]
+            if node["status"] in ("skipped", "untested") and node["steps"]:
+                out.append((world, O.V("C17", "second-run-selection", "listed-not-executed:" + node["status"], scen=sid), None))
+                break
+        for sid, node in sorted(idx2.items()):
+            if node["kind"] == "scenario" and sid not in listed and node["status"] != "skipped" and node["steps"]:
+                own = set(node["tags"])
+                if "setup" in own or "teardown" in own:
+                    continue
+                out.append((world, O.V("C17", "second-run-selection", "unlisted-not-skipped:" + node["status"], scen=sid), None))
+                break
+    return [(w, v, c) for (w, v, c) in out if v["prop"] == "C17"], hashlib.sha1(dig.encode("ascii")).hexdigest()
+
+
+def c17_evaluate(seed, hashseed, root, stats):
+    world = W.gen_world(seed, profile=prof_C17)
+    world["hashseed"] = hashseed
+    return c17_eval_world(world, root, stats)
+
+
+def c17_reproduce(world, root, ctx):
+    vs, _ = c17_eval_world(world, root, None)
+    return [v for (_w, v, _c) in vs]
+
+
+_reg("C17", c17_evaluate, c17_reproduce, "exploration",
+     "two-run histories: run 1 with -f rerun -o FILE (sometimes over a stale file) over passing / failing / erroring / "
+     "hook-error / skipped scenarios, plain and outline rows, in and outside rules; file content vs census in run order; "
+     "run 2 is fed '@FILE' with all faults removed and must execute exactly the listed scenarios; " + NONTRIVIAL,
+     {"quick": 1300, "thorough": 25000})
